@@ -1,20 +1,24 @@
 --------------------------- MODULE Trace_Transport ---------------------------
 (***************************************************************************)
-(* C17 monitor.  One trace per configuration replayed on the REAL          *)
-(* HttpxTransport (httpx.MockTransport underneath):                        *)
+(* C17 monitor.  One trace per SESSION replayed on the REAL HttpxTransport   *)
+(* (httpx.MockTransport underneath, one transport object for the whole     *)
+(* session):                                                               *)
 (*   [id  : STRING,                                                        *)
 (*    sc  : the abstract scenario printed by Transport!Judge,              *)
-(*    obs : the captured httpx.Request in the observation shape of         *)
+(*    obs : one observation per request, in the observation shape of       *)
 (*          TransportCore (header multimap with raw and lower-case names,  *)
-(*          query multimap, parsed Cookie header, body, refresh-callback   *)
-(*          arguments, exception type or "none")]                          *)
-(* The configuration is RE-DERIVED from the scenario (Concrete), the       *)
-(* reference from the configuration; the judge is TransportCore!Failures,  *)
-(* the same operator that judged the modelled wire in the design check.    *)
+(*          query multimap, parsed Cookie header, body, what the refresh   *)
+(*          callback was shown, the default-headers dict after the         *)
+(*          request, exception type or "none")]                            *)
+(* The configuration is RE-DERIVED from the scenario (Concrete), the        *)
+(* reference from the configuration and the request's position; the judge  *)
+(* is TransportCore!SessionFailures, the same operator that judged the     *)
+(* modelled wires in the design check.                                     *)
 (* Total: every trace yields exactly one VERDICT line listing all failing  *)
-(* clauses with their loci, whether the implementation-shaped model        *)
-(* predicted the observed request (drift, never a failure), what the model *)
-(* would have failed, and the number of antecedents evaluated per clause.  *)
+(* clauses with their loci (incl. the request's position), whether the     *)
+(* implementation-shaped model predicted the observed requests (drift,     *)
+(* never a failure), what the model would have failed, and the number of   *)
+(* antecedents evaluated per clause.                                       *)
 (***************************************************************************)
 EXTENDS TransportCore, TLC, Json, IOUtils
 
@@ -22,13 +26,15 @@ Traces == ndJsonDeserialize(IOEnv.TRACE_FILE)
 
 VARIABLES tid, done
 
-ScOf(t) == [plugs |-> t.sc.plugs, wrap |-> t.sc.wrap, short |-> t.sc.short, dflt |-> t.sc.dflt, req |-> t.sc.req,
-            ca |-> t.sc.ca, kn |-> t.sc.kn, hn |-> t.sc.hn, params |-> t.sc.params, cookies |-> t.sc.cookies,
+ScOf(t) == [plugs |-> t.sc.plugs, wrap |-> t.sc.wrap, short |-> t.sc.short, dflt |-> t.sc.dflt, reqs |-> t.sc.reqs,
+            rets |-> t.sc.rets, ca |-> t.sc.ca, kn |-> t.sc.kn, hn |-> t.sc.hn, params |-> t.sc.params, cookies |-> t.sc.cookies,
             body |-> t.sc.body]
 
 \* tuples of the observation arrive as JSON arrays = sequences: the shapes coincide with TransportCore's
-ObsOf(t) == [headers |-> t.obs.headers, query |-> t.obs.query, cookies |-> t.obs.cookies, body |-> t.obs.body,
-             refresh |-> t.obs.refresh, err |-> t.obs.err]
+ObsOf(t) == [i \in DOMAIN t.obs |->
+               [headers |-> t.obs[i].headers, query |-> t.obs[i].query, cookies |-> t.obs[i].cookies,
+                body |-> t.obs[i].body, refresh |-> t.obs[i].refresh, defaults |-> t.obs[i].defaults,
+                err |-> t.obs[i].err]]
 
 Init == tid \in 1..Len(Traces) /\ done = FALSE
 
@@ -39,13 +45,13 @@ Judge ==
   /\ LET t     == Traces[tid]
          c     == Concrete(ScOf(t))
          o     == ObsOf(t)
-         model == ModelWire("as_is", c)
-         fails == Failures(c, o)
+         model == ModelSession("as_is", c)
+         fails == SessionFailures(c, o)
      IN PrintT("VERDICT " \o ToJson([id    |-> t.id,
-                                     wellformed |-> ScenarioOK(ScOf(t), 3),
+                                     wellformed |-> ScenarioOK(ScOf(t), 3, 3),
                                      fails |-> SetToSeq(fails),
-                                     model_fails |-> SetToSeq(Failures(c, model)),
-                                     drift |-> Project(c, o) # Project(c, model),
+                                     model_fails |-> SetToSeq(SessionFailures(c, model)),
+                                     drift |-> ProjectSession(c, o) # ProjectSession(c, model),
                                      ante  |-> Antecedents(c)]))
 
 Spec == Init /\ [][Judge]_<<tid, done>>
